@@ -215,6 +215,6 @@ def strat_relations(ctx: Ctx):
 
 PARTS: list[Part] = [
     custom_part("small", drive_small, check_case, {"quick": 8, "thorough": 16}),
-    hyp_part("relations", strat_relations, check_case, {"quick": 300, "thorough": 25000},
-             {"quick": 4, "thorough": 16}),
+    hyp_part("relations", strat_relations, check_case, {"quick": 500, "thorough": 25000},
+             {"quick": 8, "thorough": 16}),
 ]
